@@ -105,8 +105,8 @@ def run(fn: Any, holder: nn.Module, inputs: List[torch.Tensor], gseed: int,
         gs = grad_seeds(outs, gseed)
         sel = [(o, g) for i, (o, g) in enumerate(zip(outs, gs))
                if g is not None and (out_mask is None or out_mask[i % len(out_mask)])]
-        names = [n for n, _ in holder.named_parameters()]
-        params = [p for _, p in holder.named_parameters()]
+        names = [n for n, p in holder.named_parameters() if p.requires_grad]  # frozen parameters get no gradient
+        params = [p for _, p in holder.named_parameters() if p.requires_grad]
         fin = [t for t in inputs if isinstance(t, torch.Tensor) and t.is_floating_point() and t.requires_grad]
         if sel and (params or fin):
             grads = torch.autograd.grad([o for o, _ in sel], fin + params, [g for _, g in sel],
